@@ -173,8 +173,16 @@ class patched:
 
     def __enter__(self):
         import mokapot  # noqa
+        import mokapot.constants  # noqa
         for k, v in self.kw.items():
-            for mn in self.TARGETS[k]:
+            # every loaded mokapot module that binds the constant is patched: the consumer's by-name import (TARGETS), the
+            # constants module itself (a consumer may read it as constants.X) and any module the code may have moved to
+            mods = [mn for mn in sorted(sys.modules) if (mn == "mokapot" or mn.startswith("mokapot."))
+                    and sys.modules[mn] is not None and k in getattr(sys.modules[mn], "__dict__", {})]
+            if not mods:
+                from engine.tlc import MachineryError
+                raise MachineryError("module constant %s not found in any mokapot module (expected in %s)" % (k, self.TARGETS.get(k)))
+            for mn in mods:
                 m = sys.modules[mn]
                 self.old[(mn, k)] = getattr(m, k)
                 setattr(m, k, v)
